@@ -371,6 +371,14 @@ func GenWorld(t *rapid.T, o WorldOpts) *World {
 			if v1.Cmp(big.NewInt(1e10)) < 0 || v0.Cmp(big.NewInt(1e10)) < 0 || v1.Cmp(MaxCoinSupply) > 0 {
 				continue
 			}
+			// the escrow is part of the coin's volume, which must stay below the maximal supply
+			escCoin, escVol := p.c0, v0
+			if od.isSale {
+				escCoin, escVol = p.c1, v1
+			}
+			if new(big.Int).Add(orZero(hold[escCoin]), escVol).Cmp(new(big.Int).Rsh(MaxCoinSupply, 1)) > 0 {
+				continue
+			}
 			od.v0, od.v1 = v0, v1
 			od.height = uint64(w.InitialHeight) - uint64(rapid.IntRange(1, 30).Draw(t, "ordAge"))
 			if o.RealisticBook && len(orders) > 0 && od.height < orders[len(orders)-1].height {
